@@ -560,7 +560,8 @@ def run_doc(body, record=False):
     """parse a real document; returns (document element, recorded top-level stream or None)"""
     S = _classes()
     T = S['T']
-    S['MathShift'].inEnv[:] = []
+    if hasattr(S['MathShift'], 'inEnv'):      # class-level before the D6a repair (C17); per document since then
+        S['MathShift'].inEnv[:] = []
     S['List'].depth = 0
     recs = []
     if record:
